@@ -123,6 +123,10 @@ def component_kind(e: ast.expr, k: int, f: FuncInfo) -> Tuple[bool, str]:
     for sign, t in _terms(e):
         if isinstance(t, ast.Constant) and isinstance(t.value, (int, float)):
             continue
+        if isinstance(t, ast.Name):
+            # a local unpacked from a pair (`dy, dx = self.offset`) is that pair's component
+            from . import wire
+            t = wire.inline_locals(f, t, unpack=True)
         if isinstance(t, ast.Subscript) and isinstance(t.slice, ast.Constant) and isinstance(t.slice.value, int):
             if t.slice.value != k:
                 return False, f"`{norm_text(t)}` is component {t.slice.value} used in position {k} (axes mixed)"
